@@ -174,8 +174,8 @@ Proof.
   intros OkB Hx Hn Hm Ex En. pose proof (shift_word sx Tb x n OkB Hx Hn Hm) as SW.
   unfold m_shift. cbn [leval]. rewrite En. cbn [ev2].
   destruct (w_slt (wrap n) (wrap 0) =? 0).
-  - cbn [leval]. rewrite Ex, En. cbn [ev2]. rewrite SW. reflexivity.
-  - cbn [leval]. rewrite Ex, En. cbn [leval]. rewrite <- SW. destruct sx; reflexivity.
+  - cbn [leval]. rewrite Ex. cbn [ev2]. rewrite SW. reflexivity.
+  - cbn [leval]. rewrite Ex. cbn [leval ev2]. rewrite <- SW. destruct sx; reflexivity.
 Qed.
 
 Theorem abs_exact e ex x : sword x -> leval e ex = Val (wrap x) ->
@@ -218,13 +218,13 @@ Proof.
     { destruct T as [k s d]. unfold nty_eqb, uint256_t in Ok. cbn in Ok. destruct s, d; cbn in Ok; rewrite ?andb_false_r in Ok;
         try discriminate Ok. rewrite !andb_true_r in Ok. apply Z.eqb_eq in Ok. subst. reflexivity. }
     subst T. change (c_hi (CNum uint256_t)) with MAXU in *. change (c_lo (CNum uint256_t)) with 0 in *.
-    unfold w_not. rewrite (wrap_small x) by wl. symmetry. apply wrap_small. wl.
+    unfold w_not. rewrite (wrap_small x) by wl. f_equal. symmetry. apply wrap_small. wl.
   - apply Z.eqb_eq in Ok. subst m. change (c_hi (CBytes 32)) with MAXU in *. change (c_lo (CBytes 32)) with 0 in *.
-    unfold w_not. rewrite (wrap_small x) by wl. symmetry. apply wrap_small. wl.
+    unfold w_not. rewrite (wrap_small x) by wl. f_equal. symmetry. apply wrap_small. wl.
   - assert (Hn : 1 <= n <= 256) by lia. cbn [c_hi c_lo] in *.
     pose proof (pow2_le_W n ltac:(lia)). assert (0 < 2 ^ n) by (apply Z.pow_pos_nonneg; lia).
     unfold w_xor. rewrite (wrap_small x), (wrap_small (2 ^ n - 1)) by lia.
-    rewrite lxor_ones_sub by lia. symmetry. apply wrap_small. lia.
+    rewrite lxor_ones_sub by lia. f_equal. symmetry. apply wrap_small. lia.
 Qed.
 
 (* the defect in shift(): an unsigned 256-bit amount with the top bit set is taken as negative *)
@@ -276,14 +276,14 @@ Proof.
   intros Sx. pose proof W_val. pose proof HALF_val. unfold v_abs. bstep. rewrite (slt0_val x Sx).
   destruct (Z.ltb_spec x 0).
   - destruct (abs_cases x Sx ltac:(lia)) as [A B]. rewrite B.
-    assert (EQ : w_eq (w_sub (wrap 0) (wrap x)) (wrap x) = b2z (x =? MINS)).
-    { unfold w_iszero in A. rewrite B in A. unfold w_eq in *. rewrite Z.eqb_sym.
+    assert (EQ : w_eq (wrap x) (wrap (Z.abs x)) = b2z (x =? MINS)).
+    { rewrite B in A. unfold w_iszero, w_eq in *.
       destruct (wrap x =? wrap (Z.abs x)); destruct (x =? MINS); cbn in *; congruence. }
-    rewrite B in EQ. rewrite EQ. rewrite w_and_b2z, w_iszero_b2z, b2z_eq0. cbn [andb negb].
+    rewrite EQ. rewrite w_and_b2z, w_iszero_b2z, b2z_eq0. cbn [andb negb].
     destruct (x =? MINS); cbn [negb enc_out]; [reflexivity|].
     bstep. f_equal. rewrite (select_val true) by apply wrap_range. reflexivity.
-  - replace (x =? MINS) with false by (unfold sword, MINS in *; wl). cbn [enc_out b2z].
-    unfold w_and at 1. rewrite Z.land_0_r. change (w_iszero 0 =? 0) with false. cbn iota.
+  - replace (x =? MINS) with false by (unfold sword, MINS in *; wl). cbn [enc_out].
+    unfold w_eq. rewrite w_and_b2z, w_iszero_b2z, b2z_eq0. cbn [andb negb].
     bstep. f_equal. rewrite (select_val false) by (try apply wrap_range; unfold w_sub; apply Z.mod_pos_bound; lia).
     rewrite Z.abs_eq by lia. reflexivity.
 Qed.
@@ -292,8 +292,7 @@ Theorem vmodop_exact (o : op3) a b c : uword a -> uword b -> uword c -> o <> OSe
   vrun (benv3 a b c) (v_modop o) =
   enc_out (if c =? 0 then Revert else Val (match o with OAddmod => (a + b) mod c | _ => (a * b) mod c end)).
 Proof.
-  intros Ha Hb Hc No. unfold v_modop. bstep.
-  rewrite (wrap_small a), (wrap_small b), (wrap_small c) by assumption.
+  intros Ha Hb Hc No. unfold v_modop, benv3. rewrite (wrap_small a), (wrap_small b), (wrap_small c) by assumption. bstep.
   destruct (Z.eqb_spec c 0) as [->|Nz]; [reflexivity|]. cbn [enc_out]. bstep. unfold uword in *.
   destruct o; [| |contradiction]; cbn [ev3]; unfold w_addmod, w_mulmod; replace (c =? 0) with false by lia; f_equal;
     symmetry; apply wrap_small; match goal with |- 0 <= ?m mod c < W => pose proof (Z.mod_pos_bound m c ltac:(lia)) end; lia.
@@ -311,5 +310,6 @@ Proof.
   intros Ok Hx.
   pose proof (invert_exact T (benv1 x) (LVar "%1") x Ok Hx eq_refl) as L.
   destruct T as [T| | |m|n]; cbn [inv_ok] in Ok; try discriminate Ok; cbn [v_invert m_invert] in *; bstep;
-    cbn [leval lookup benv1 String.eqb Ascii.eqb Bool.eqb ev1 ev2] in L; exact L.
+    cbn [leval lookup benv1 String.eqb Ascii.eqb Bool.eqb ev1 ev2] in L; try exact L.
+  unfold w_xor in *. rewrite Z.lxor_comm. exact L.
 Qed.
